@@ -826,10 +826,10 @@ Definition encode_xmsg (x : xmsg) : cresult bytes :=
   obind (emit_struct get_msg emit_kind_msg (enc_fields_of SMsg) x) (fun b => COk (benc_dict_body b)).
 
 (* the flags Msg.v does not carry, in the normal form "non-nil exactly when non-empty"
-   (the ip of a message is taken non-nil when it has bytes) *)
+   (the ip of a message is taken nil exactly when the whole NodeAddr is the zero value) *)
 Definition x_of_msg (m : msg) : xmsg :=
   mkX m
-      (match na_ip (m_ip m) with [] => false | _ => true end)
+      (negb (match na_ip (m_ip m) with [] => true | _ => false end && Z.eqb (na_port (m_ip m)) 0))
       (match m_a m with Some a => match a_salt a with [] => false | _ => true end | None => false end)
       (match m_r m with Some r => match r_v r with [] => false | _ => true end | None => false end).
 
